@@ -290,3 +290,70 @@ class C13Construct(Harness):
         ref = {"none": z3.IntVal(1), "int": cx.t(x["n"]), "float": z3.ToReal(cx.t(x["k"])) / 4}[wk]
         val = r["freq"][0][0] if p["nd"] else r["freq"][0]
         yield "value_not_truncated", cx.eq(val, ref)
+
+
+@register
+class C13AdaptiveAdd(Harness):
+    prop = "C13"
+    group = "adaptive_add"
+    bounds_doc = "adaptive fixed-width 1D histograms (width 1, 2 bins) of dtype T0 and T1 whose bin ranges are offset by a symbolic d in [-3, 3] (d != 0: the bin-adapting branch of addition), + and +=; contents symbolic integers in [0, 50], the first content of a float right operand is a symbolic multiple of 1/4"
+
+    def instances(self, tier):
+        for t0, t1 in itertools.product(DTYPES, DTYPES):
+            if tier == "quick" and (t0 in ("int32", "float16") or t1 in ("int32", "float16")):
+                continue
+            for op in ("add", "iadd"):
+                if tier == "quick" and op == "add" and t0 != "int64":
+                    continue
+                yield f"adapt-{op}-{t0}-{t1}", dict(t0=t0, t1=t1, op=op)
+
+    def declare(self, cx, p):
+        return {"f": cx.ints("f", 2, 0, 50), "g": cx.ints("g", 2, 0, 50), "k": cx.int("k", 1, 8), "d": cx.pyint("d", -3, 3)}
+
+    def drive(self, E, p, x):
+        np = E.np
+        H1 = E.mod("physt.histogram1d").Histogram1D
+        FWB = E.mod("physt.binnings").FixedWidthBinning
+        t0, t1 = p["t0"], p["t1"]
+        gv = [x["k"] / 4.0, x["g"][1]] if t1[0] == "f" else list(x["g"])
+        h = H1(FWB(bin_width=1.0, bin_count=2, bin_times_min=0, adaptive=True), np.asarray(x["f"], dtype=t0))
+        g = H1(FWB(bin_width=1.0, bin_count=2, bin_times_min=x["d"], adaptive=True), np.asarray(gv, dtype=t1))
+
+        def run():
+            if p["op"] == "add":
+                return h + g
+            r = h
+            r += g
+            return r
+
+        r = E.attempt(run)
+        if isinstance(r, Raised):
+            return {"op_raised": r}
+        return {"res": snap1d(E, r), "right_after": snap1d(E, g), "missed_dtype": str(r._missed.dtype)}
+
+    def oracle(self, cx, p, x, obs):
+        yield "no_harness_exception", obs.get("raised") is None
+        if obs.get("raised") is not None:
+            return
+        yield "no_exception", obs.get("op_raised") is None
+        if obs.get("op_raised") is not None:
+            return
+        t0, t1 = p["t0"], p["t1"]
+        d = cx.concrete_int(x["d"])
+        r = obs["res"]
+        exp = promote(t0, t1)
+        yield "dtype_consistent", r["dtype"] == r["fdtype"] == r["edtype"]
+        yield "dtype_is_promotion", r["dtype"] == exp
+        yield "missed_dtype", obs["missed_dtype"] == r["dtype"]
+        f = [z3.ToReal(cx.t(i)) for i in x["f"]]
+        g = [z3.ToReal(cx.t(x["k"])) / 4 if t1[0] == "f" else z3.ToReal(cx.t(x["g"][0])), z3.ToReal(cx.t(x["g"][1]))]
+        lo, hi = min(0, d), max(2, d + 2)
+        yield "bin_range", len(r["freq"]) == hi - lo and len(r["bins"]) == hi - lo
+        if len(r["freq"]) != hi - lo:
+            return
+        for j, k in enumerate(range(lo, hi)):
+            ref = (f[k] if 0 <= k < 2 else 0) + (g[k - d] if d <= k < d + 2 else 0)
+            yield f"content[{j}]", cx.eq(r["freq"][j], ref)
+            yield f"bin[{j}]", z3.And(cx.t(r["bins"][j][0]) == k, cx.t(r["bins"][j][1]) == k + 1)
+        ra = obs["right_after"]
+        yield "right_operand_dtype_untouched", ra["dtype"] == t1 == ra["fdtype"] == ra["edtype"]
